@@ -334,3 +334,22 @@ def proof_gate(v, prop_file, extra_trusted=None):
 
 def case_hash(obj):
     return hashlib.sha256(json.dumps(obj, sort_keys=True, default=str).encode()).hexdigest()[:16]
+
+
+# ---------------------------------------------------------------- time limit for implementation calls
+import contextlib
+import signal
+
+
+@contextlib.contextmanager
+def time_limit(seconds):
+    """raise TimeoutError if the body (a call into the implementation) does not return in time"""
+    def handler(signum, frame):
+        raise TimeoutError(f"no result within {seconds}s")
+    old = signal.signal(signal.SIGALRM, handler)
+    signal.alarm(seconds)
+    try:
+        yield
+    finally:
+        signal.alarm(0)
+        signal.signal(signal.SIGALRM, old)
